@@ -67,7 +67,9 @@ class State(object):
         self.pc.append(c)
 
     def oblige(self, name, goal, kind='post', where=None):
-        self.obligations.append(Obligation(name, goal, list(self.hyps), list(self.pc), kind, where, self.path))
+        ob = Obligation(name, goal, list(self.hyps), list(self.pc), kind, where, self.path)
+        ob.final_state = self           # (for small-scope concretisation of a refuted obligation)
+        self.obligations.append(ob)
 
     # --- heap
     def alloc_arr(self, shape, fn, kind='real'):
